@@ -708,3 +708,44 @@ func forEachReturnValueThroughDepth(fn *ssa.Function, idx int, f func(v ssa.Valu
 		paramBindings = saved
 	})
 }
+
+// returnsThrough: the returns of fn, where a return that merely forwards the whole result tuple of a synchronous call of a
+// private helper used only here (`return helper(…)`) is replaced by that helper's own returns (recursively). The facts at a
+// helper's return include what guards its call site, so each replaced return is judged as if the helper's body stood in fn.
+func (w *World) returnsThrough(fn *ssa.Function) []*ssa.Return {
+	return w.returnsThroughDepth(fn, 0)
+}
+
+func (w *World) returnsThroughDepth(fn *ssa.Function, depth int) []*ssa.Return {
+	var out []*ssa.Return
+	for _, ret := range returnsOf(fn) {
+		var fwd *ssa.Call
+		if depth < 3 && len(ret.Results) > 0 {
+			if len(ret.Results) == 1 {
+				fwd, _ = ret.Results[0].(*ssa.Call)
+			} else {
+				for i, r := range ret.Results {
+					ex, ok := r.(*ssa.Extract)
+					if !ok || ex.Index != i {
+						fwd = nil
+						break
+					}
+					call, ok := ex.Tuple.(*ssa.Call)
+					if !ok || (i > 0 && call != fwd) {
+						fwd = nil
+						break
+					}
+					fwd = call
+				}
+			}
+		}
+		if fwd != nil && fwd.Block() == ret.Block() {
+			if g := inlinedCallee(fwd); g != nil && g.Signature.Results().Len() == len(ret.Results) {
+				out = append(out, w.returnsThroughDepth(g, depth+1)...)
+				continue
+			}
+		}
+		out = append(out, ret)
+	}
+	return out
+}
